@@ -392,6 +392,22 @@ def proof_stage(rep, pid, extra_targets=(), needs_translators=None):
         missing = [t for (r, t) in thms if not (vo_ok(r) and assum.get(t) == "closed")]
         broken.append({"obligation": "assumptions-missing", "detail": "no Print Assumptions result for %s; vo_ok=%s; raw output: %s" %
                        (missing[:5], {r: vo_ok(r) for r in rel}, raw[-1500:])})
+    if rep.tier == "thorough" and not broken:
+        # independent re-check of the compiled property modules and everything they depend on
+        mods = ["DC." + r[:-2].replace(os.sep, ".") for r in rel]
+        crc, cout = sh(["coqchk", "-silent", "-o", "-Q", COQ, "DC"] + mods, cwd=COQ, timeout=5400)
+        m = re.search(r"\* Axioms:(.*?)\n\s*\n\* Constants", cout, flags=re.S)
+        axioms = [a.strip() for a in (m.group(1).strip().splitlines() if m else []) if a.strip() and a.strip() != "<none>"]
+        rep.coverage["coqchk"] = {"rc": crc, "axioms": axioms, "modules": mods,
+                                  "summary": cout[cout.find("CONTEXT SUMMARY"):][:1200]}
+        if crc != 0:
+            broken.append({"obligation": "coqchk", "detail": cout[-1500:]})
+        else:
+            # axioms declared by the standard library itself may be loaded by an imported library; they are reported in the
+            # evidence (Print Assumptions already shows that no property theorem depends on them); anything else is ours
+            foreign = [a for a in axioms if not a.startswith("Coq.")]
+            if foreign:
+                broken.append({"obligation": "coqchk-axioms", "detail": "; ".join(foreign)})
     rep.coverage.update({
         "obligations": max(len(thms), 1),
         "discharged": discharged,
